@@ -16,6 +16,7 @@
     output = ( ( events sends nodes ) ... )           one entry per step; a step that is not enabled prints
                                                       the error term and ends the output
     events = ( ( #addr event ) ... ), sends = ( ( #src #dst vv members ) ... ), nodes = ( ( #addr state ) ... )
+    a node the step left unchanged is printed as ( #addr ) only;
     state  = () when the address is not running, else
              ( self view ( ( #addr vv ) ... ) ( gossip_on fd_on retry_on ) in_quorum #last_leader dc_health #leader_of_view ) *)
 From Coq Require Import List NArith ZArith.
@@ -98,7 +99,8 @@ Definition removed_count (s : step) : nat := match s with SDeliver _ _ | SDrop _
 Definition t_step_out (w w' : world) (s : step) (log : list (list N * event)) : tm :=
   TL [tlist (tpair TB t_event) log;
       tlist t_packet (skipn (length (w_net w) - removed_count s) (w_net w'));
-      tlist (fun a => TL [TB a; match w_nodes w' !! a with Some n => t_node n | None => TL [] end]) (touched w s)].
+      tlist (fun a => if decide (w_nodes w !! a = w_nodes w' !! a) then TL [TB a]
+                      else TL [TB a; match w_nodes w' !! a with Some n => t_node n | None => TL [] end]) (touched w s)].
 
 Fixpoint run_steps (w : world) (l : list tm) : list tm :=
   match l with
